@@ -26,3 +26,15 @@ claim("C20",
   "Trusted: go/ssa, go/cfg, effect analysis, guard-dominance engine. Not covered: the de-duplication counter logic, alias-vs-generated clashes, exact naming of nested expressions.",
   "static analysis: write effects + map-iteration order + guard-dominance on index expressions",
   "DESIGN.md 4/C20")
+
+claim("C03",
+  "The precedence table is extracted from Token.Precedence by constant propagation for every token constant and compared, by operator spelling, with the five levels the property states; isOperator/IsRegexOp likewise. The insertion loop of ParseExpr is checked on SSA: the only conditions leading to the insertion point are 'right child is not a BinaryExpr' and prec(child) >= prec(new) (left associativity), the inserted node is {LHS: old right child, RHS: new operand, Op: new op}; '(' always yields a ParenExpr; regex operators take their operand from parseRegex and a missing regex is rejected. These are the finite tables and the comparator the grouping of every chain depends on; a different insertion algorithm is reported undecided, not accepted.",
+  "Trusted: go/ssa, the SCCP evaluator in checker/sccp.go, the spelling table `tokens` as the link between the property's operator spellings and token constants. Not covered: the scanner's character-level recognition of the 18 spellings; general correctness of the insertion algorithm beyond comparator and node shape; printing (C02).",
+  "static analysis: table extraction by sparse conditional constant propagation on SSA + structural check of the insertion loop",
+  "DESIGN.md 4/C03, 3/E1")
+
+claim("C08",
+  "Unit table of ParseDuration extracted by constant propagation (unit rune and look-ahead bound to each compared constant) equals the nine units the property lists; FormatDuration is verified to be a strictly descending divisibility ladder whose suffixes map back to the same multipliers (necessary for Parse(Format(d)) = d and for 'largest dividing unit'); the accumulation is protected by an error-returning test that depends on number, multiplier and running total; no printer writes a duration through Go's own formatting. Exactness of the int64 arithmetic below the bound is plain machine arithmetic and is not separately proved.",
+  "Trusted: go/ssa, SCCP evaluator. Not covered: sufficiency of the overflow comparison for every magnitude (the rule checks which quantities it bounds, not its arithmetic), the MinInt64 exception, the lexer's DURATIONVAL continuation.",
+  "static analysis: SCCP table extraction + ladder-shape check + dependence check of the overflow guard on SSA",
+  "DESIGN.md 4/C08, 3/E1")
